@@ -214,7 +214,7 @@ func c13Run(cas c13Case) (sig string, err error) {
 			return "invalid-case", fmt.Errorf("unknown op %q", op.K)
 		}
 	}
-	if total > 40*c13Frame {
+	if total > 70000*c13Frame {
 		return "invalid-case", fmt.Errorf("case too long")
 	}
 	m := machine.NewHW(c13ROM, nil, false)
@@ -436,6 +436,33 @@ func TestC13(t *testing.T) {
 		"Non-trivial: the case runs >= 1 complete frame with the LCD on and contains >= 1 on/off switch that is not at a line start. Distinct = hash of the operation list (sweep cases are distinct by construction).")
 	defer c.Flush()
 	c.RunReplays()
+
+	// a long uninterrupted run: counters that wrap only after hundreds (8 bits) or tens of thousands (16 bits) of
+	// frames must not disturb the schedule; LY and the mode are compared after every machine cycle throughout
+	c.Sub("long-run", func(t *testing.T) {
+		runs := []int{300}
+		if c.Env.Thorough() {
+			runs = []int{300, 600, 66000}
+		}
+		for i, frames := range runs {
+			if !c.Env.Mine(i) {
+				continue
+			}
+			cas := c13Case{Ops: []c13Op{{K: "lcdc", V: 0x91}, {K: "run", N: frames*c13Frame + 500}}}
+			if i == 1 {
+				cas.Ops = []c13Op{{K: "lcdc", V: 0x91}, {K: "run", N: 200}, {K: "lcdc", V: 0x11}, {K: "run", N: 77}, {K: "lcdc", V: 0x91}, {K: "run", N: frames*c13Frame + 500}}
+			}
+			sig, err := c13Run(cas)
+			c.Sample("long-run", cas)
+			c.Bulk("long-run", 1, 1)
+			if err != nil {
+				if known, first := c.FailFirst("lcdtiming", sig, err.Error(), cas); !known && first {
+					t.Errorf("%v", err)
+				}
+			}
+		}
+		c.Exhaustive("the LCD left on without interruption for 300 frames (thorough: also 600 after an off/on, and 66 000), every machine cycle compared")
+	})
 
 	c.Sub("off-sweep", func(t *testing.T) {
 		lines := []int{0, 1, 77, 142, 143, 144, 152, 153}
